@@ -92,11 +92,14 @@ def c_scope(lib, f):
     return (f["cls"] + "_") if f.get("cls") and f["kind"] in ("ctor", "method", "smethod") else ""
 
 
-def c_fname(lib, f):
+def c_fname(lib, f, call=None):
     base = {"ctor": "ctor", "dtor": "dtor"}.get(f["kind"], un_camel(f["name"]))
     suf = f.get("suffix")
-    if suf is None and f["kind"] == "ctor" and f.get("noverload", 1) > 1:
+    if suf is None and f.get("noverload", 1) > 1:
         suf = "_%d" % f["overload_index"]          # documented default: sequence number
+    if f.get("ndefault") and call is not None:
+        # one C function per arity, numbered from the fewest arguments
+        suf = (suf or "") + "_%d" % (call["nargs"] - (len(f["params"]) - f["ndefault"]))
     return PREFIX + c_scope(lib, f) + base + (suf or "")
 
 
@@ -115,6 +118,8 @@ def c_op_lines(lib, op):
     for idx, p in enumerate(f["params"]):
         row, T, nm = p["row"], p["T"], p["name"]
         v = "v%d" % idx
+        if "nargs" in call and idx >= call["nargs"]:
+            continue                       # omitted: the library's default applies
         if row in ("K1ptr", "K1ref"):
             args.append("&" + co(op["objs"][nm]))
         elif p.get("implied_of"):
@@ -157,7 +162,7 @@ def c_op_lines(lib, op):
             post.append(obs_arr_c(T, idx, v, len(outs[nm])))
     if op["kind"] in ("new", "make"):
         args.append("&" + co(op["obj"]))        # the capsule the wrapper fills in
-    callx = "%s(%s)" % (c_fname(lib, f), ", ".join(args))
+    callx = "%s(%s)" % (c_fname(lib, f, call), ", ".join(args))
     r = f["ret"]
     out.append("    {")
     out += ["        " + d for d in decl]
@@ -265,6 +270,8 @@ def obs_arr_f(T, slot, v):
 
 def f_procname(lib, f):
     suf = f.get("suffix")
+    if f.get("noverload", 1) > 1 or f.get("ndefault"):
+        return un_camel(f["name"]).lower()        # documented: the generic name is the C++ name
     return (un_camel(f["name"]) + (suf or "")).lower()
 
 
@@ -283,6 +290,8 @@ def f_op_lines(lib, op):
         v = "v%d" % idx
         if p.get("implied_of"):
             continue                      # implied arguments are not part of the Fortran API
+        if "nargs" in call and idx >= call["nargs"]:
+            continue                      # omitted: the library's default applies
         if row in ("K1ptr", "K1ref"):
             args.append(fo(op["objs"][nm]))
         elif p.get("size_for") or row in ("N1", "N2in", "B1"):
